@@ -653,8 +653,30 @@ func c12SummariseHelper(c *kit.Ctx, fn *kit.Func) *c12Helper {
 	c12HelperMu.Unlock()
 	sig := fn.Signature()
 	ps := fn.Params()
-	if fn.Decl == nil || fn.Body == nil || sig == nil || sig.Recv() != nil || len(ps) != 1 || sig.Variadic() || sig.Results().Len() != 1 {
-		h.why = "helper " + fn.Name + " does not have exactly one parameter and one result"
+	if fn.Decl == nil || fn.Body == nil || sig == nil || sig.Recv() != nil || len(ps) != 1 || sig.Variadic() {
+		h.why = "helper " + fn.Name + " does not have exactly one parameter"
+		return h
+	}
+	// list converter: (xs []A) ([]B, error), or (xs []A) []B — summarised by the
+	// element-wise chain of its successful return
+	if _, isSlice := ps[0].Type().Underlying().(*types.Slice); isSlice && sig.Results().Len() >= 1 && sig.Results().Len() <= 2 {
+		okSig := true
+		if sig.Results().Len() == 2 && !types.Identical(sig.Results().At(1).Type(), types.Universe.Lookup("error").Type()) {
+			okSig = false
+		}
+		if okSig {
+			c.Analysed(fn)
+			steps, why := kit.ExtractParamChain(fn, ps[0])
+			if why != "" {
+				h.why = "helper " + fn.Name + ": " + why
+				return h
+			}
+			h.status, h.steps = "ok", steps
+			return h
+		}
+	}
+	if sig.Results().Len() != 1 {
+		h.why = "helper " + fn.Name + " does not have exactly one result"
 		return h
 	}
 	prm := ps[0]
